@@ -451,6 +451,27 @@ string handle(const string &payload) {
         r = w.dm->UnregisterDevice(static_cast<const ola::AbstractDevice*>(w.devs[d])) ? "1" : "0";
     } else if (o == "NA") {
       w.dm->UnregisterAllDevices();
+    } else if (o == "F") {
+      // a DMX frame from client a[2]: the real OlaServerServiceImpl::UpdateDmxData
+      ola::rpc::RpcSession session(NULL);
+      session.SetData(w.client(vh::num(a[2])));
+      ola::rpc::RpcController controller(&session);
+      ola::proto::DmxData request;
+      ola::proto::Ack response;
+      request.set_universe(vh::num(a[1]));
+      request.set_data(string("\x01\x02\x03", 3));
+      w.service.UpdateDmxData(&controller, &request, &response, ola::NewSingleCallback(&ack_done));
+      r = controller.Failed() ? "missing" : "-";
+    } else if (o == "H") {
+      // OlaServer::RunHousekeeping: collect, then let every universe drop its stale source clients
+      w.prefs.saved.clear();
+      w.store.GarbageCollectUniverses();
+      vector<Universe*> unis;
+      w.store.GetList(&unis);
+      for (size_t i = 0; i < unis.size(); i++) unis[i]->CleanStaleSourceClients();
+      vector<unsigned long long> sv = w.prefs.saved;
+      std::sort(sv.begin(), sv.end());
+      r = "saved:" + join(sv, ".");
     } else if (o == "RA" || o == "RU") {
       // the real OlaServerServiceImpl::RegisterForDmx on behalf of client a[2]
       ola::rpc::RpcSession session(NULL);
